@@ -4,12 +4,14 @@ package main
 
 import (
 	"fmt"
+	"os"
 	"go/types"
 	"runtime"
 	"runtime/debug"
 	"sort"
 	"strings"
 	"sync"
+	"sync/atomic"
 	"time"
 
 	"golang.org/x/tools/go/ssa"
@@ -31,7 +33,7 @@ type FuncResult struct {
 
 func (e *Engine) VerifyFunc(fn *ssa.Function, con *Contract) (res *FuncResult) {
 	t0 := time.Now()
-	x := &Explorer{eng: e, fn: fn, con: con, fnKey: con.Key, notes: map[string]int{}, unmod: map[string]int{}, assumed: map[string]int{}, inlined: map[string]int{}}
+	x := &Explorer{eng: e, fn: fn, con: con, fnKey: con.Key, notes: map[string]int{}, unmod: map[string]int{}, assumed: map[string]int{}, inlined: map[string]int{}, forkCount: map[string]int{}}
 	res = &FuncResult{Key: con.Key, Unmodelled: x.unmod, Assumed: x.assumed, Notes: x.notes, Inlined: x.inlined}
 	defer func() {
 		if r := recover(); r != nil {
@@ -43,6 +45,23 @@ func (e *Engine) VerifyFunc(fn *ssa.Function, con *Contract) (res *FuncResult) {
 		}
 		res.Obls = x.obls
 		res.Paths = x.paths
+		if e.verbose {
+			type kv struct {
+				k string
+				v int
+			}
+			var l []kv
+			for k, v := range x.forkCount {
+				l = append(l, kv{k, v})
+			}
+			sort.Slice(l, func(i, j int) bool { return l[i].v > l[j].v })
+			for i, e := range l {
+				if i >= 25 {
+					break
+				}
+				fmt.Fprintf(os.Stderr, "  fork %5d  %s\n", e.v, e.k)
+			}
+		}
 		res.Seconds = time.Since(t0).Seconds()
 	}()
 	if fn.Blocks == nil {
@@ -254,8 +273,89 @@ func (o *Obligation) Quantified() bool {
 	return hasQuant(o.Goal)
 }
 
+// symsOf collects the free constants of a term (not UF names).
+func symsOf(t *Term, out map[string]bool) {
+	switch t.Op {
+	case "sym":
+		out[t.Name] = true
+		return
+	case "int", "true", "false":
+		return
+	}
+	for _, a := range t.Args {
+		symsOf(a, out)
+	}
+}
+
+// relevant keeps the assumptions connected to the goal through shared constants (cone of
+// influence). Dropping assumptions is sound for proving; a query that does not discharge in
+// this form is retried with every assumption.
+func relevant(assume []*Term, goal *Term) []*Term {
+	seen := map[string]bool{}
+	symsOf(goal, seen)
+	type item struct {
+		t    *Term
+		syms map[string]bool
+		in   bool
+	}
+	items := make([]*item, len(assume))
+	for i, a := range assume {
+		m := map[string]bool{}
+		symsOf(a, m)
+		items[i] = &item{t: a, syms: m}
+		if len(m) == 0 {
+			items[i].in = true // ground facts (string lengths etc.)
+		}
+	}
+	for changed := true; changed; {
+		changed = false
+		for _, it := range items {
+			if it.in {
+				continue
+			}
+			hit := false
+			for s := range it.syms {
+				if seen[s] {
+					hit = true
+					break
+				}
+			}
+			if hit {
+				it.in = true
+				changed = true
+				for s := range it.syms {
+					seen[s] = true
+				}
+			}
+		}
+	}
+	var out []*Term
+	for _, it := range items {
+		if it.in {
+			out = append(out, it.t)
+		}
+	}
+	return out
+}
+
 // Decide runs the quantifier-free form first and falls back to the quantified one.
 func (o *Obligation) Decide(solver *Solver, inputs []*Term) {
+	if !o.Cover && len(o.Assume) > 40 {
+		full := o.Assume
+		o.Assume = relevant(full, o.Goal)
+		if len(o.Assume) < len(full) {
+			o.decide(solver, inputs)
+			if o.Res != nil && o.Res.Status == "unsat" {
+				o.Assume = full
+				return
+			}
+		}
+		o.Assume = full
+	}
+	o.decide(solver, inputs)
+}
+
+func (o *Obligation) decide(solver *Solver, inputs []*Term) {
 	if !o.Quantified() {
 		o.Query = o.BuildQuery(inputs, true)
 		o.Res = solver.Solve(o.Query)
@@ -285,7 +385,124 @@ func (o *Obligation) Decide(solver *Solver, inputs []*Term) {
 	}
 }
 
+// batchParts splits an obligation into the assumptions shared by its group (quantifier-free
+// ones) and the goal-specific quantifier instances.
+func (o *Obligation) batchParts() (common, extra []*Term, ok bool) {
+	if hasQuant(o.Goal) {
+		return nil, nil, false
+	}
+	var quant []*Term
+	for _, a := range o.Assume {
+		if hasQuant(a) {
+			quant = append(quant, a)
+		} else {
+			common = append(common, a)
+		}
+	}
+	if len(quant) > 0 {
+		idx := map[string]*Term{}
+		indexTerms(o.Goal, idx, 0)
+		var goalIdx []*Term
+		for _, k := range sortedKeys(idx) {
+			goalIdx = append(goalIdx, idx[k])
+		}
+		for _, a := range quant {
+			for _, i := range instances(a, o.Skolems, goalIdx) {
+				if !hasQuant(i) {
+					extra = append(extra, i)
+				}
+			}
+		}
+	}
+	return common, extra, true
+}
+
+// solveBatch discharges obligations that share their assumptions in one z3 session
+// (push/pop per goal, quantifier-free relaxation). Anything not answered unsat is left for
+// the individual procedure.
+func solveBatch(solver *Solver, obls []*Obligation) {
+	var common []*Term
+	var extras [][]*Term
+	var negs []*Term
+	var todo []*Obligation
+	for _, o := range obls {
+		c, e, ok := o.batchParts()
+		if !ok {
+			continue
+		}
+		if len(c) > len(common) {
+			common = c // facts only grow within one state: the largest set is a superset
+		}
+		extras = append(extras, e)
+		negs = append(negs, Not(o.Goal))
+		todo = append(todo, o)
+	}
+	if len(todo) < 2 {
+		return
+	}
+	q := BatchQuery(common, extras, negs, 2000)
+	t0 := time.Now()
+	out := solver.RunRaw("z3-new", q, 2*len(todo)+5)
+	dt := time.Since(t0).Seconds() / float64(len(todo))
+	lines := strings.Split(strings.TrimSpace(out), "\n")
+	k := 0
+	for _, ln := range lines {
+		ln = strings.TrimSpace(ln)
+		if ln != "unsat" && ln != "sat" && ln != "unknown" && ln != "timeout" {
+			continue
+		}
+		if k >= len(todo) {
+			break
+		}
+		if ln == "unsat" {
+			todo[k].Res = &SolveResult{Status: "unsat", Backend: "z3-new(batch)", Seconds: dt}
+		}
+		k++
+	}
+}
+
 func Discharge(solver *Solver, results []*FuncResult, progress func(done, total int)) {
+	if os.Getenv("GOCV_NOBATCH") == "" {
+		groups := map[string][]*Obligation{}
+		var order []string
+		for _, r := range results {
+			for _, o := range r.Obls {
+				if o.Res != nil || o.Cover || o.AKey == "" {
+					continue
+				}
+				k := r.Key + "|" + o.AKey
+				if _, ok := groups[k]; !ok {
+					order = append(order, k)
+				}
+				groups[k] = append(groups[k], o)
+			}
+		}
+		var bwg sync.WaitGroup
+		bch := make(chan []*Obligation)
+		workers := runtime.NumCPU()
+		if workers > 16 {
+			workers = 16
+		}
+		for w := 0; w < workers; w++ {
+			bwg.Add(1)
+			go func() {
+				defer bwg.Done()
+				for g := range bch {
+					func() {
+						defer func() { recover() }()
+						solveBatch(solver, g)
+					}()
+				}
+			}()
+		}
+		for _, k := range order {
+			if len(groups[k]) >= 2 {
+				bch <- groups[k]
+			}
+		}
+		close(bch)
+		bwg.Wait()
+	}
 	type job struct {
 		o      *Obligation
 		inputs []*Term
@@ -298,6 +515,14 @@ func Discharge(solver *Solver, results []*FuncResult, progress func(done, total 
 			}
 		}
 	}
+	if mj := os.Getenv("GOCV_MAXJOBS"); mj != "" {
+		n := 0
+		fmt.Sscanf(mj, "%d", &n)
+		if n > 0 && n < len(jobs) {
+			jobs = jobs[len(jobs)/2 : len(jobs)/2+n]
+		}
+	}
+	failedGroups := map[string]bool{}
 	var wg sync.WaitGroup
 	ch := make(chan job)
 	var mu sync.Mutex
@@ -311,6 +536,15 @@ func Discharge(solver *Solver, results []*FuncResult, progress func(done, total 
 		go func() {
 			defer wg.Done()
 			for j := range ch {
+				gk := j.o.Func + "#" + j.o.Name
+				mu.Lock()
+				skip := failedGroups[gk] && !j.o.Cover
+				mu.Unlock()
+				if skip {
+					// one failing path is enough to report the obligation
+					j.o.Res = &SolveResult{Status: "skipped", Backend: "none", Output: "not run: another path of this obligation already failed"}
+					continue
+				}
 				func() {
 					defer func() {
 						if r := recover(); r != nil {
@@ -318,8 +552,14 @@ func Discharge(solver *Solver, results []*FuncResult, progress func(done, total 
 						}
 					}()
 					j.o.Decide(solver, j.inputs)
+					if j.o.Res != nil && j.o.Res.Status == "unsat" && !keepQuery(j.o) {
+						j.o.Query = ""
+					}
 				}()
 				mu.Lock()
+				if j.o.Res != nil && j.o.Res.Status != "unsat" && !j.o.Cover {
+					failedGroups[gk] = true
+				}
 				done++
 				if progress != nil {
 					progress(done, len(jobs))
@@ -338,6 +578,7 @@ func Discharge(solver *Solver, results []*FuncResult, progress func(done, total 
 // ---- grouping -----------------------------------------------------------------------
 
 type OblGroup struct {
+	At      string
 	Func    string
 	Name    string
 	Kind    string
@@ -358,7 +599,7 @@ func GroupObligations(results []*FuncResult) []*OblGroup {
 			k := o.Func + "#" + o.Name
 			g := m[k]
 			if g == nil {
-				g = &OblGroup{Func: o.Func, Name: o.Name, Kind: o.Kind, Label: o.Label, Where: o.Where, Backend: map[string]int{}, OK: true}
+				g = &OblGroup{Func: o.Func, Name: o.Name, Kind: o.Kind, Label: o.Label, Where: o.Where, At: o.At, Backend: map[string]int{}, OK: true}
 				m[k] = g
 				order = append(order, k)
 			}
@@ -398,3 +639,13 @@ func GroupObligations(results []*FuncResult) []*OblGroup {
 }
 
 func typeString(t types.Type) string { return t.String() }
+
+var keptQueries int32
+
+// keepQuery keeps the text of the first few discharged queries (evidence samples).
+func keepQuery(o *Obligation) bool {
+	if o.Cover {
+		return false
+	}
+	return atomic.AddInt32(&keptQueries, 1) <= 40
+}
